@@ -147,7 +147,7 @@ Proof.
     destruct b as [|rb b1].
     + reflexivity.
     + inversion Hb as [|? ? Hrb Hb1]; subst.
-      change (hdr (encode [])) with (@None (Z * Z)). rewrite hdr_encode.
+      change (hdr (encode [])) with (@None (Z * Z)). rewrite hdr_encode. cbv iota beta.
       rewrite encode_cons at 1 2.
       rewrite firstn_app_exact by (symmetry; apply enc_rcd_length; assumption).
       rewrite skipn_app_exact by (symmetry; apply enc_rcd_length; assumption).
@@ -161,13 +161,13 @@ Proof.
     assert (Hlen1 : (length (encode a1) < length (encode (r :: a1)))%nat)
       by (rewrite (encode_cons r a1), app_length; unfold enc_rcd; simpl; lia).
     destruct b as [|rb b1].
-    + change (hdr (encode [])) with (@None (Z * Z)).
+    + change (hdr (encode [])) with (@None (Z * Z)). cbv iota beta.
       rewrite (encode_cons r a1) at 1 2.
       rewrite firstn_app_exact by (symmetry; apply enc_rcd_length; assumption).
       rewrite skipn_app_exact by (symmetry; apply enc_rcd_length; assumption).
       rewrite rmerge_nil_r, encode_cons. f_equal.
       specialize (IH a1 [] Ha1 ltac:(constructor)). rewrite rmerge_nil_r in IH. apply IH. simpl in *. lia.
-    + inversion Hb as [|? ? Hrb Hb1]; subst. rewrite hdr_encode.
+    + inversion Hb as [|? ? Hrb Hb1]; subst. rewrite hdr_encode. cbv iota beta.
       assert (Hlen2 : (length (encode b1) < length (encode (rb :: b1)))%nat)
         by (rewrite (encode_cons rb b1), app_length; unfold enc_rcd; simpl; lia).
       rewrite rmerge_cons. destruct (fst r <? fst rb) eqn:E1; [|destruct (fst rb <? fst r) eqn:E2].
